@@ -472,7 +472,25 @@ func midwayFailure(run *evid.Run, idx int) {
 			})
 		}
 	}
+	// blob readers that break off: the storage fails after some bytes of the (range of the) content
+	blobData := bytes.Repeat([]byte("0123456789abcdef"), []int{4, 700, 6000}[idx%3])
+	blobDig := ociregistry.Digest(model.Digest(blobData))
+	mem.PushBlob(context.Background(), "mid/way", ociregistry.Descriptor{MediaType: "application/octet-stream", Digest: blobDig, Size: int64(len(blobData))}, bytes.NewReader(blobData))
+	breakAfter := rng.IntN(len(blobData) / 2)
+	breaking := func(r ociregistry.BlobReader, err error) (ociregistry.BlobReader, error) {
+		if err != nil {
+			return nil, err
+		}
+		return &breakingReader{BlobReader: r, left: breakAfter, err: boom}, nil
+	}
 	faulty := &ociregistry.Funcs{
+		GetBlob_: func(ctx context.Context, repo string, d ociregistry.Digest) (ociregistry.BlobReader, error) {
+			return breaking(mem.GetBlob(ctx, repo, d))
+		},
+		GetBlobRange_: func(ctx context.Context, repo string, d ociregistry.Digest, o0, o1 int64) (ociregistry.BlobReader, error) {
+			return breaking(mem.GetBlobRange(ctx, repo, d, o0, o1))
+		},
+		ResolveBlob_: mem.ResolveBlob,
 		Tags_: func(ctx context.Context, repo, startAfter string) ociregistry.Seq[string] {
 			return cut(mem.Tags(ctx, repo, startAfter), fmt.Sprintf("t%d", after))
 		},
@@ -501,7 +519,10 @@ func midwayFailure(run *evid.Run, idx int) {
 	}()
 	a, b := model.NewEnv(faulty), model.NewEnv(top)
 	run.Eval(1)
-	for _, op := range []*model.Op{{Kind: "Tags", Repo: "mid/way"}, {Kind: "Repositories"}} {
+	for _, op := range []*model.Op{{Kind: "Tags", Repo: "mid/way"}, {Kind: "Repositories"},
+		{Kind: "GetBlob", Repo: "mid/way", Digest: string(blobDig)},
+		{Kind: "GetBlobRange", Repo: "mid/way", Digest: string(blobDig), O0: 3, O1: int64(len(blobData) - 2)},
+		{Kind: "GetBlobRange", Repo: "mid/way", Digest: string(blobDig), O0: 1, O1: -1}} {
 		oa := a.Exec(op)
 		var ob *model.Outcome
 		w := map[string]any{"config": c, "op": op.String(), "items_before_failure": after, "failure": boom.Error(), "direct": oa.String()}
@@ -511,6 +532,19 @@ func midwayFailure(run *evid.Run, idx int) {
 		w["through_stack"] = ob.String()
 		run.Count("midway_failures", 1)
 		run.Distinct(fmt.Sprintf("midway-failure/%s/hops=%d/debug=%s/%s", op.Kind, c.Hops, c.Debug, ob.Class()))
+		if strings.HasPrefix(op.Kind, "GetBlob") {
+			// the failure shows while reading: directly the read ends in the storage's error; through the
+			// stack it has to end in some error as well, not in a clean end of stream after fewer bytes
+			if !oa.OK || oa.ReadErr == "" {
+				run.Inconclusive("midway-failure: the breaking reader did not break (" + oa.String() + ")")
+				return
+			}
+			run.Count("midway_read_failures", 1)
+			if ob.OK && ob.ReadErr == "" {
+				run.Violation("midway-failure/read-error-lost/"+op.Kind, fmt.Sprintf("%s: directly the read breaks off after %d bytes (%s); through hops=%d debug=%s it ends cleanly after %d bytes", op, len(oa.Data), oa.ReadErr, c.Hops, c.Debug, len(ob.Data)), w)
+			}
+			continue
+		}
 		if oa.OK {
 			run.Inconclusive("midway-failure: the faulty backend did not fail")
 			return
@@ -530,6 +564,24 @@ func midwayFailure(run *evid.Run, idx int) {
 			run.Violation("midway-failure/code/"+op.Kind, fmt.Sprintf("%s fails directly with code %s; through hops=%d debug=%s with code %s", op, ca, c.Hops, c.Debug, cb), w)
 		}
 	}
+}
+
+type breakingReader struct {
+	ociregistry.BlobReader
+	left int
+	err  error
+}
+
+func (r *breakingReader) Read(p []byte) (int, error) {
+	if r.left <= 0 {
+		return 0, r.err
+	}
+	if len(p) > r.left {
+		p = p[:r.left]
+	}
+	n, err := r.BlobReader.Read(p)
+	r.left -= n
+	return n, err
 }
 
 func main() {
